@@ -65,7 +65,7 @@ void SimulateMsp430::reset()
 void SimulateMsp430::push(uint32_t value)
 {
   reg[1] -= 2;
-  ram_write16(reg[1], value);
+  ram_write16(reg[1] & 0xfffe, value);
 }
 
 int SimulateMsp430::set_reg(const char *reg_string, uint32_t value)
@@ -526,7 +526,9 @@ int SimulateMsp430::put_data(
 
   if (bw == BW_WORD)
   {
-    ram_write16(ea, data);
+    // Words live at even addresses (the CPU ignores bit 0), so a word
+    // store at 0xffff cannot spill into 0x10000.
+    ram_write16(ea & 0xfffe, data);
   }
     else
   {
@@ -621,7 +623,7 @@ int SimulateMsp430::one_operand_exe(uint16_t opcode)
       reg[1] -= 2;
       src = get_data(reg_index, As, bw, ea);
       update_reg(reg_index, As, bw);
-      ram_write16(reg[1], src);
+      ram_write16(reg[1] & 0xfffe, src);
       break;
     }
     case 5:  // CALL (no bw)
@@ -629,7 +631,7 @@ int SimulateMsp430::one_operand_exe(uint16_t opcode)
       src = get_data(reg_index, As, bw, ea);
       update_reg(reg_index, As, bw);
       reg[1] -= 2;
-      ram_write16(reg[1], reg[0]);
+      ram_write16(reg[1] & 0xfffe, reg[0]);
       reg[0] = src;
       nested_call_count++;
       break;
